@@ -32,7 +32,11 @@ RULE = ("sentences generated from the grammar expr := term (('*'|'/'|dot) term)*
         "caller editing the mappings parse_unit_string handed out (item assignment, pop, clear); "
         "every reply is judged by the reference parser on the string of that call alone, every "
         "mapping / quantity / array / definition obtained earlier is looked at again; the same "
-        "history goes to the Lean session model (`runS`)")
+        "history goes to the Lean session model (`runS`).  Exponents also at the boundary values of "
+        "an unbounded integer (around 2^15 .. 2^100, long decimals; never next to a '^(p/q)' power).  "
+        "Sessions in which define_unit NAMES a symbol the history's strings use (define-as), "
+        "clear_unit_definitions() in between, and histories that start a new process (also run in a "
+        "fork of a fresh interpreter)")
 ASSUMPTIONS = ["the scanner in Model/UnitParse.lean mirrors what re.fullmatch + finditer do for the "
                "pinned pattern texts; that is validated by this run (exhaustively over short "
                "strings in the thorough tier), not proved",
